@@ -75,6 +75,33 @@ CHECKS['C03'] = dict(
     design='§5 C03',
     note=COMMON_NOTE + 'C03_full (all interleavings of all rewrite rules) is not proved: the proved part is regrouping + individual rules; the rest is covered by the bounded exhaustive correspondence, which is a test, not a proof.')
 
+CHECKS['C02'] = dict(
+    technique='Lean 4 proof (positional parameter binding of the rebuild copy, by induction over the SELECT list) + cell-level differential correspondence',
+    text=('Lean model of the SQLite rebuild copy step (new_initial, field_values, field_initials built in the orders '
+          'the code builds them; positional %s binding). Proved for every column list, item list and row: row count '
+          'preserved; a surviving untouched column keeps its value whatever the parameters (C02_surviving); when the '
+          'parameters are passed in placeholder order every placeholder receives the initial declared for its own '
+          'column, so added columns hold their initial value and null->non-null changes replace exactly the NULLs '
+          '(evalRow_aligned, C02_aligned); today-order correctness whenever the two orders agree; kernel-checked '
+          'counterexample for the mis-binding that the pinned commit had (F3, repaired by a fix: commit; the variant '
+          'in force is probed with the Lean witness on every run). The model predicts every cell of the rebuilt '
+          'table from the real op list in one-table batches; multi-model oracle for values through field/model '
+          'renames, row counts and initial values.'),
+    design='§5 C02',
+    note=COMMON_NOTE + 'SQLite column-affinity coercion and RENAME COLUMN/TO semantics are observed, not proved; rows are read through a raw sqlite3 connection (no Django converters).')
+CHECKS['C18'] = dict(
+    technique='Lean 4 proof (grouping/merge counting) over extracted tables + rebuild-count correspondence',
+    text=('mergeable_ops and the needs_rebuild item table are extracted from source on every run. Proved for every '
+          'mergeable table and op list: merged lowering never rebuilds more often than lowering each op by itself '
+          '(C18_monotone, via a permutation argument), a run of mergeable ops is one group (C18_single), and with a '
+          'table that contains the four documented op types every run of add/delete/attribute-change/Meta ops is at '
+          'most one rebuild (C18_documented). The hypothesis of C18_documented is evaluated on the extracted table '
+          '(false at the pinned commit: missing comma, finding F15, kernel-checked counterexample). The model '
+          'predicts the number of CREATE TABLE "TEMP_TABLE" statements from the real ModelMutator op lists; oracle: '
+          'per table, batched <= one-at-a-time on a real database.'),
+    design='§5 C18',
+    note=COMMON_NOTE + 'The mapping from a queued op to its alter-table items is hand-written (validated by the count correspondence). C18_monotone is about the lowering of a fixed op list; that the optimiser never lengthens the op list is tested, not proved.')
+
 NOT_YET = {}
 
 
